@@ -1,4 +1,4 @@
-(* C03 — every produced image is a well-formed MS-CFB file by an independent checker.  Statements are printed by Check below and compared with C03.expected.  PARTIAL: the checker wf_check (spec/WfImage.v, written from MS-CFB and the property text, sharing no mechanics with the model or the library) is run on the IMPLEMENTATION's bytes after every operation of every generated history — that is the property's oracle applied directly to the code.  Theorems cover the base case (the created image of both versions is accepted), evaluated instances of the inductive step, non-triviality of the checker, and the parts of the invariant W that are proved: FAT cache = FAT on disk through reuse and growth, FAT/DIFAT markers maintained (FatInv/DifatOk), free list disjoint from FAT sectors and naming only FREE cells, removal blanks exactly the removed slot and keeps the sibling tree a search tree without red-red edges.  Also proved (proofs/WfPersist.v): THE PROPERTY FOR NAMESPACE HISTORIES - the checker accepts (all rules, 50 since the strengthening prompted by proofs/WfOpen.v) the image of every state satisfying the history invariant of C02 (PInv) with empty streams, no orphan FAT cells, an empty mini stream and blank slots outside the tree; those conditions hold of the fresh file and are kept by create_storage, create_new_stream, remove_storage, remove_stream and the metadata setters; hence for EVERY history of those calls and the queries from a fresh file of either version (up to 6000 calls) the image is well-formed, at every prefix.  Also proved (proofs/DataWf.v): THE STATIC THEOREM FOR FILES WITH STREAM DATA - the checker accepts (all rules, 50 since the strengthening prompted by proofs/WfOpen.v) the image of every state satisfying DBase (Coherent + well-formed entries + root) and DInv (the mini-stream container and MiniFAT chains exist and fit; every stream has start END_OF_CHAIN when empty, a FAT chain of EXACTLY ceil(len / sector) sectors at or above the cutoff, a MiniFAT chain of exactly ceil(len / 64) mini sectors below it; every non-FREE FAT cell and every non-FREE MiniFAT cell has exactly one owner) with a tidy directory; the old theorem for empty streams is a corollary; DInv is preserved by write-back and resize in the non-allocating cases, by growth of a large stream into reused and into appended sectors, and by shrinking a large stream (freed cells become FREE and lose their owner); wf_data_history / wf_data_history_meta: for every history of covered handle operations, queries and metadata setters on a file with data the image is well-formed at every prefix.  Also proved (proofs/DataWf2.v): the invariant W2 (C02's persistence invariant + DInv + 'every FREE cell is on the free stack', i.e. nothing leaked + tidy directory) is preserved, by a counting argument over the sectors of the file, by every large-stream operation (growth by reuse and append, release, truncation to zero, first growth, allocating writes), by truncation of a small stream to zero, by removal of large and of empty streams and by reopen; wf_data_history4: wf_check = 0 at every prefix of histories made of those operations and queries.  NOT proved: small-stream growth with mini-sector allocation, first small writes, the migrations and removal of a small stream (evaluated on long runs and a bounded exhaustive search of set_len sequences instead). *)
+(* C03 — every produced image is a well-formed MS-CFB file by an independent checker.  Statements are printed by Check below and compared with C03.expected.  PARTIAL: the checker wf_check (spec/WfImage.v, written from MS-CFB and the property text, sharing no mechanics with the model or the library) is run on the IMPLEMENTATION's bytes after every operation of every generated history — that is the property's oracle applied directly to the code.  Theorems cover the base case (the created image of both versions is accepted), evaluated instances of the inductive step, non-triviality of the checker, and the parts of the invariant W that are proved: FAT cache = FAT on disk through reuse and growth, FAT/DIFAT markers maintained (FatInv/DifatOk), free list disjoint from FAT sectors and naming only FREE cells, removal blanks exactly the removed slot and keeps the sibling tree a search tree without red-red edges.  Also proved (proofs/WfPersist.v): THE PROPERTY FOR NAMESPACE HISTORIES - the checker accepts (all rules, 50 since the strengthening prompted by proofs/WfOpen.v) the image of every state satisfying the history invariant of C02 (PInv) with empty streams, no orphan FAT cells, an empty mini stream and blank slots outside the tree; those conditions hold of the fresh file and are kept by create_storage, create_new_stream, remove_storage, remove_stream and the metadata setters; hence for EVERY history of those calls and the queries from a fresh file of either version (up to 6000 calls) the image is well-formed, at every prefix.  Also proved (proofs/DataWf.v): THE STATIC THEOREM FOR FILES WITH STREAM DATA - the checker accepts (all rules, 50 since the strengthening prompted by proofs/WfOpen.v) the image of every state satisfying DBase (Coherent + well-formed entries + root) and DInv (the mini-stream container and MiniFAT chains exist and fit; every stream has start END_OF_CHAIN when empty, a FAT chain of EXACTLY ceil(len / sector) sectors at or above the cutoff, a MiniFAT chain of exactly ceil(len / 64) mini sectors below it; every non-FREE FAT cell and every non-FREE MiniFAT cell has exactly one owner) with a tidy directory; the old theorem for empty streams is a corollary; DInv is preserved by write-back and resize in the non-allocating cases, by growth of a large stream into reused and into appended sectors, and by shrinking a large stream (freed cells become FREE and lose their owner); wf_data_history / wf_data_history_meta: for every history of covered handle operations, queries and metadata setters on a file with data the image is well-formed at every prefix.  Also proved (proofs/DataWf2.v): the invariant W2 (C02's persistence invariant + DInv + 'every FREE cell is on the free stack', i.e. nothing leaked + tidy directory) is preserved, by a counting argument over the sectors of the file, by every large-stream operation (growth by reuse and append, release, truncation to zero, first growth, allocating writes), by truncation of a small stream to zero, by removal of large and of empty streams and by reopen; wf_data_history4: wf_check = 0 at every prefix of histories made of those operations and queries.  In its final form (wf_data_history_full) the theorem ranges over hist_ok2 itself - small-stream growth with mini-sector allocation, first small writes, both migrations and removal of small streams included - i.e. over every history for which C02 proves persistence.  NOT proved: what hist_ok2 excludes (creations and storages inside data histories - covered separately by wf_history and wf_data_history_meta -, growth needing a new FAT / DIFAT / container sector inside the data cases, the DIFAT-sector regime). *)
 From Cfb.model Require Import Base Names DirEnt State Alloc Dir Mini Store Handle Open Cfb.
 From Cfb.gen Require Import Consts.
 From Cfb.spec Require Import WfImage.
@@ -286,6 +286,48 @@ Theorem C03_data_history_example_small_truncation : ltac:(let t := type of DataW
 Proof. exact DataWf2.Example9.hist6_wf. Qed.
 Check C03_data_history_example_small_truncation.
 Print Assumptions C03_data_history_example_small_truncation.
+
+(* mini sectors from the mini free list or appended: tight - every index below the new MiniFAT length is old or the allocated one *)
+Theorem C03_small_growth_with_allocation_keeps_it : ltac:(let t := type of resize_small_alloc_dinv in exact t).
+Proof. exact resize_small_alloc_dinv. Qed.
+Check C03_small_growth_with_allocation_keeps_it.
+Print Assumptions C03_small_growth_with_allocation_keeps_it.
+
+(* mini chain released, MiniFAT trimmed, root length shrunk *)
+Theorem C03_removal_of_a_small_stream_keeps_it : ltac:(let t := type of remove_small_stream_w2 in exact t).
+Proof. exact remove_small_stream_w2. Qed.
+Check C03_removal_of_a_small_stream_keeps_it.
+Print Assumptions C03_removal_of_a_small_stream_keeps_it.
+
+(* both tables move: pigeonhole on the FAT side, release frames on the mini side *)
+Theorem C03_migration_small_to_large_keeps_it : ltac:(let t := type of resize_small_to_big_dinv in exact t).
+Proof. exact resize_small_to_big_dinv. Qed.
+Check C03_migration_small_to_large_keeps_it.
+Print Assumptions C03_migration_small_to_large_keeps_it.
+
+(* the reverse *)
+Theorem C03_migration_large_to_small_keeps_it : ltac:(let t := type of resize_big_to_small_dinv in exact t).
+Proof. exact resize_big_to_small_dinv. Qed.
+Check C03_migration_large_to_small_keeps_it.
+Print Assumptions C03_migration_large_to_small_keeps_it.
+
+(* one API step of a covered history (all 11 resize cases, all 6 write cases, the 3 removal cases, reopen, queries) *)
+Theorem C03_every_covered_step_keeps_it : ltac:(let t := type of step_w2_full in exact t).
+Proof. exact step_w2_full. Qed.
+Check C03_every_covered_step_keeps_it.
+Print Assumptions C03_every_covered_step_keeps_it.
+
+(* THE PROPERTY over hist_ok2 itself: along every history for which C02 proves persistence, the independent checker accepts the image at every prefix - exact chain lengths, unique owners, nothing leaked *)
+Theorem C03_images_of_all_covered_data_histories_are_well_formed : ltac:(let t := type of wf_data_history_full in exact t).
+Proof. exact wf_data_history_full. Qed.
+Check C03_images_of_all_covered_data_histories_are_well_formed.
+Print Assumptions C03_images_of_all_covered_data_histories_are_well_formed.
+
+(* non-vacuity: large-to-small and small-to-large migrations, a first small write with flush, reopen *)
+Theorem C03_full_history_example : ltac:(let t := type of DataWf2.Example12.hist3_wf in exact t).
+Proof. exact DataWf2.Example12.hist3_wf. Qed.
+Check C03_full_history_example.
+Print Assumptions C03_full_history_example.
 
 (* EVALUATION (not the general claim): all set_len sequences of depth 2 over {0,64,100,4095,4096,5000,9000} on two streams give accepted images *)
 Theorem C03_bounded_exhaustive_set_len_search : ltac:(let t := type of DataWf.Evaluated.explore2_v3 in exact t).
